@@ -317,8 +317,20 @@ func ShrinkAndWrite(t *testing.T, eng Engine, plan Plan, res *Result, v Violatio
 		reproduced = sh.Run(orig)
 	}
 	if !reproduced {
+		// Not reproducible inside this process: harness nondeterminism - or state the
+		// library keeps for the life of the process (a first-use race, a cache that
+		// is warm now). The unshrunk (plan, tape) is written all the same, marked:
+		// the driver replays it in a fresh process and believes it only if the same
+		// signature shows up there.
 		pj, _ := json.Marshal(plan)
-		return "(not reproducible from its own tape: harness nondeterminism) plan=" + string(pj)
+		rp := Replay{Engine: eng.Name(), Property: v.Property, Sig: v.Sig, Msg: v.Msg + " [did not reproduce inside the worker process that found it: not minimised]", Seed: cfg.Seed, Iter: iter, Profile: cfg.Profile,
+			Plan: pj, Tape: res.Tape, OrigOps: eng.NOps(plan), OrigTape: res.Tape.NonZero(), ShrunkOps: eng.NOps(plan), ShrunkTape: res.Tape.NonZero()}
+		os.MkdirAll(cfg.ReplayDir, 0o755)
+		name := fmt.Sprintf("%s-%016x-s%d-i%d-unshrunk.json", v.Property, hash64([]byte(v.Sig)), cfg.Seed, iter)
+		path := filepath.Join(cfg.ReplayDir, name)
+		b, _ := json.MarshalIndent(rp, "", " ")
+		os.WriteFile(path, b, 0o644)
+		return path
 	}
 	min := sh.Shrink(orig)
 	final := eng.Run(t, min.Plan, NewReplay(min.Tape), true)
